@@ -80,8 +80,10 @@ def _walk_types(T):
                 yield from _walk_types(e)
         elif tag in ("newtype", "fwd", "tvarc", "tvarb", "stype", "alias695"):
             yield from _walk_types(T[2])
-        elif tag in ("enum", "flag", "literal", "text"):
+        elif tag in ("enum", "flag", "literal", "text", "recref"):
             return
+        elif tag == "rec695":
+            yield from _walk_types(T[3])
         else:
             for e in T[1:]:
                 yield from _walk_types(e)
